@@ -74,6 +74,11 @@ ElemFn(f, x) == CASE f = 0 -> x + 1
                   [] f = 1 -> x % 3
                   [] f = 2 -> 0 - x
 NElemFn == 3
+\* comparators handed to Set.compare(other, f), consulted for elements that are equal under their own
+\* compare: 0 = the elements' compare again (consistent), 1 = constantly 1 (legal, "inconsistent")
+SetCmpFn(f, a, b) == CASE f = 0 -> a - b
+                       [] f = 1 -> 1
+NSetCmpFn == 2
 \* List.filterMap / List.findMap callbacks
 FilterMapFn(x) == IF x % 2 = 0 THEN None ELSE Some(x % 5)
 FindMapFn(x) == IF x > 2 THEN Some(x + 1) ELSE None
@@ -117,6 +122,13 @@ LexCmp(a, b) ==
   LET n == IF Len(a) < Len(b) THEN Len(a) ELSE Len(b)
       D == {i \in 1..n : a[i] # b[i]}
   IN  IF D = {} THEN Sign(Len(a) - Len(b)) ELSE LET i == MinOf(D) IN IF a[i] < b[i] THEN -1 ELSE 1
+
+\* the same with a second comparator F that is asked when two elements are equal
+LexCmpBy(a, b, F(_, _)) ==
+  LET n == IF Len(a) < Len(b) THEN Len(a) ELSE Len(b)
+      D == {i \in 1..n : a[i] # b[i] \/ F(a[i], b[i]) # 0}
+  IN  IF D = {} THEN Sign(Len(a) - Len(b))
+      ELSE LET i == MinOf(D) IN IF a[i] # b[i] THEN (IF a[i] < b[i] THEN -1 ELSE 1) ELSE Sign(F(a[i], b[i]))
 
 (******************************** finite sets **********************************)
 Elements(S) == Sorted(S)
@@ -225,7 +237,8 @@ SFold(r)         == SetObs(<<<<SetFold(s[r])>>>>)
 SForAll(r, p)    == SetObs(<<B(\A x \in s[r] : ElemPred(p, x))>>)
 SExists(r, p)    == SetObs(<<B(\E x \in s[r] : ElemPred(p, x))>>)
 SEqual(r)        == SetObs(<<B(s[r] = s[1 - r])>>)
-SCompare(r)      == SetObs(<<<<LexCmp(Elements(s[r]), Elements(s[1 - r]))>>>>)
+\* s.compare(other, f): ascending enumerations compared position by position, by compare, then by f
+SCompare(r, f)   == SetObs(<<<<LexCmpBy(Elements(s[r]), Elements(s[1 - r]), LAMBDA a, b : SetCmpFn(f, a, b))>>>>)
 \* s.elements() stored into the list register: conversion set -> list
 SToList(r) == SetQ(r, Elements(s[r])) /\ Len(Elements(s[r])) <= MaxLen /\ obs' = <<Elements(s[r])>> /\ UNCHANGED <<m, s>>
 
@@ -292,7 +305,7 @@ Step(o) ==
     [] o.op = "sMin" -> SMin(o.r)              [] o.op = "sMax" -> SMax(o.r)
     [] o.op = "sFold" -> SFold(o.r)            [] o.op = "sForAll" -> SForAll(o.r, o.f)
     [] o.op = "sExists" -> SExists(o.r, o.f)   [] o.op = "sEqual" -> SEqual(o.r)
-    [] o.op = "sCompare" -> SCompare(o.r)      [] o.op = "sToList" -> SToList(o.r)
+    [] o.op = "sCompare" -> SCompare(o.r, o.f)     [] o.op = "sToList" -> SToList(o.r)
     [] o.op = "qNil" -> QNil(o.r)              [] o.op = "qOf" -> QOf(o.r, o.k)
     [] o.op = "qCons" -> QCons(o.r, o.k)       [] o.op = "qAppend" -> QAppend(o.r)
     [] o.op = "qRevAppend" -> QRevAppend(o.r)  [] o.op = "qReverse" -> QReverse(o.r)
@@ -323,10 +336,10 @@ MapOps ==
   \cup OpsF({"mFilter", "mPartition", "mForAll", "mExists"}, NKeyPred)
 SetOps ==
   Ops0({"sEmpty", "sUnion", "sInter", "sDiff", "sCopy", "sFromList", "sFromKeys", "sIsEmpty", "sSubset",
-        "sDisjoint", "sSize", "sElements", "sMin", "sMax", "sFold", "sEqual", "sCompare", "sToList"})
+        "sDisjoint", "sSize", "sElements", "sMin", "sMax", "sFold", "sEqual", "sToList"})
   \cup OpsK({"sSingleton", "sInsert", "sRemove", "sSplit", "sContains"})
   \cup OpsF({"sFilter", "sPartition", "sForAll", "sExists"}, NElemPred)
-  \cup OpsF({"sMap"}, NElemFn)
+  \cup OpsF({"sMap"}, NElemFn) \cup OpsF({"sCompare"}, NSetCmpFn)
 ListOps ==
   Ops0({"qNil", "qAppend", "qRevAppend", "qReverse", "qFilterMap", "qBind", "qFlatten", "qCopy", "qRest",
         "qLength", "qIsEmpty", "qFirst", "qFindMap", "qFold", "qFoldRight"})
@@ -378,6 +391,7 @@ SetLaws ==
     /\ (A \ C) \cup (A \cap C) = A
     /\ (A \subseteq C) = (A \cap C = A)
     /\ (LexCmp(Elements(A), Elements(C)) = 0) = (A = C)
+    /\ LexCmpBy(Elements(A), Elements(C), LAMBDA a, b : SetCmpFn(0, a, b)) = LexCmp(Elements(A), Elements(C))
     /\ (A # {}) => SetMin(A) = Some(Elements(A)[1]) /\ SetMax(A) = Some(Elements(A)[Len(Elements(A))])
 ListLaws ==
   \A r \in R : LET l == q[r] IN
